@@ -20,6 +20,7 @@ type Ghost struct {
 }
 
 type Program struct {
+	sliceWriteMemo map[string]int
 	repo       string
 	moduleDir  string
 	fset       *token.FileSet
@@ -523,4 +524,90 @@ func (p *Program) isRepoPkg(path string) bool {
 		}
 	}
 	return strings.HasPrefix(path, "mods.irisnet.org/")
+}
+
+// writesSliceElems: does fn store into the elements of its slice parameter number pi (s[i] = v, s[i].F = v), directly or
+// through a static callee it hands the slice to? Go slices share their backing array, so such a store is visible to
+// the caller in every variable holding that slice.
+func (p *Program) writesSliceElems(fn *ssa.Function, pi int) bool {
+	if p.sliceWriteMemo == nil {
+		p.sliceWriteMemo = map[string]int{}
+	}
+	key := fmt.Sprintf("%s#%d", p.funcKey(fn), pi)
+	switch p.sliceWriteMemo[key] {
+	case 1:
+		return false
+	case 2:
+		return true
+	}
+	p.sliceWriteMemo[key] = 1 // in progress / no
+	if pi >= len(fn.Params) || len(fn.Blocks) == 0 {
+		return false
+	}
+	if _, ok := fn.Params[pi].Type().Underlying().(*types.Slice); !ok {
+		return false
+	}
+	// values that denote the parameter's backing array
+	alias := map[ssa.Value]bool{fn.Params[pi]: true}
+	for changed := true; changed; {
+		changed = false
+		for _, b := range fn.Blocks {
+			for _, ins := range b.Instrs {
+				v, ok := ins.(ssa.Value)
+				if !ok || alias[v] {
+					continue
+				}
+				switch in := ins.(type) {
+				case *ssa.ChangeType:
+					if alias[in.X] {
+						alias[v], changed = true, true
+					}
+				case *ssa.Slice:
+					if alias[in.X] {
+						alias[v], changed = true, true
+					}
+				case *ssa.Phi:
+					for _, e := range in.Edges {
+						if alias[e] {
+							alias[v], changed = true, true
+						}
+					}
+				case *ssa.IndexAddr:
+					if alias[in.X] {
+						alias[v], changed = true, true // address into the array
+					}
+				case *ssa.FieldAddr:
+					if alias[in.X] {
+						alias[v], changed = true, true
+					}
+				}
+			}
+		}
+	}
+	res := false
+	for _, b := range fn.Blocks {
+		for _, ins := range b.Instrs {
+			switch in := ins.(type) {
+			case *ssa.Store:
+				if alias[in.Addr] {
+					res = true
+				}
+			case ssa.CallInstruction:
+				cc := in.Common()
+				if callee := cc.StaticCallee(); callee != nil {
+					for j, a := range cc.Args {
+						if alias[a] {
+							if _, isSl := a.Type().Underlying().(*types.Slice); isSl && p.writesSliceElems(callee, j) {
+								res = true
+							}
+						}
+					}
+				}
+			}
+		}
+	}
+	if res {
+		p.sliceWriteMemo[key] = 2
+	}
+	return res
 }
